@@ -247,16 +247,16 @@ impl Interpreter {
                 state.stack.push_bytes(x2)
             }
             OpCodes::OP_CAT => {
-                let mut x1 = state.stack.pop_bytes()?;
                 let x2 = state.stack.pop_bytes()?;
+                let mut x1 = state.stack.pop_bytes()?;
 
                 x1.extend_from_slice(&x2);
 
                 state.stack.push_bytes(x1)
             }
             OpCodes::OP_SPLIT => {
-                let x = state.stack.pop_bytes()?;
                 let n = state.stack.pop_number()?;
+                let x = state.stack.pop_bytes()?;
 
                 if n < 0 || n as usize > x.len() {
                     return Err(InterpreterError::InvalidStackOperation("OP_SPLIT position is out of range"));
